@@ -9,7 +9,7 @@ THEOREMS = ['ToDs.c03_dims_coords', 'ToDs.c03_sel', 'ToDs.c03_constants_resource
             'Core.processNested_get', 'VarDims.applyItems_spec', 'VarDims.c03_vd_dict', 'VarDims.c03_vd_unknown_rejected',
             'VarDims.c03_vd_single_keys', 'VarDims.c03_vd_order_irrelevant', 'VarDims.c03_vd_group_dict', 'VarDims.c03_vd_corr',
             'VarDims.c03_vd_str', 'VarDims.c03_vd_str_needs_single', 'VarDims.c03_vd_empty', 'VarDims.c03_vd_auto']
-ANCHORS = []
+ANCHORS = ['varDimsElemCorr', 'varDimsQuantAny', 'varDimsStrRefused']
 RULE = ("grids (1-3 args x 1-4 values) and case sets (+ optional sub-grid), 1-3 output variables with scalar / 1-d / 2-d "
         "array outputs whose internal dimensions come from var_coords or from a constant, constants that are / are not "
         "dimensions, resources, attrs, every spelling of var_names / var_dims, functions returning a Dataset with "
